@@ -108,7 +108,7 @@ def isolation(c, d, epnum, my_pids, extra_ports, own_idle, framed, unprotected, 
             c.ensure(f"requests_{hs}_only_after_my_token", z3.Implies(O[hs] == 1, mine_now),
                      clause="requests a handshake only in response to a token carrying its own endpoint number and direction")
     # (b)
-    idle = own_idle(I)
+    idle = own_idle(I, ts)
     fr = framed(ts)
     for nm, term in fr:
         c.ensure(f"foreign_traffic_leaves_{nm}_unchanged", z3.Implies(z3.And(z3.Not(mine_now), idle), c.nx(term) == term),
@@ -145,13 +145,14 @@ def stream_in(mp, ep, multibyte=0):
             P = "stream_ep.tx_manager."
             extra = {"s_valid": d.stream.valid, "s_ready": d.stream.ready, "s_payload": d.stream.payload,
                      "s_last": d.stream.last, "s_first": d.stream.first}
-            own_idle = lambda I: z3.And(I["s_valid"] == 0, bits(I["clr"], 0) == 0)
+            # own side idle: no word offered and the word serialiser in front of the byte endpoint is not shifting one out
+            own_idle = lambda I, ts: z3.And(I["s_valid"] == 0, bits(I["clr"], 0) == 0, ts.fsm("fsm_state").is_("IDLE"))
         else:
             d = USBStreamInEndpoint(endpoint_number=ep, max_packet_size=mp)
             P = "tx_manager."
             extra = {"s_valid": d.stream.valid, "s_ready": d.stream.ready, "s_payload": d.stream.payload,
                      "s_last": d.stream.last, "s_first": d.stream.first, "flush": d.flush, "discard": d.discard}
-            own_idle = lambda I: z3.And(I["s_valid"] == 0, I["flush"] == 0, I["discard"] == 0, bits(I["clr"], 0) == 0)
+            own_idle = lambda I, ts: z3.And(I["s_valid"] == 0, I["flush"] == 0, I["discard"] == 0, bits(I["clr"], 0) == 0)
 
         def framed(ts):
             out = [("data_pid", ts.sig(P + "data_pid")), ("buffer_selection", ts.sig(P + "buffer_toggle")),
@@ -172,7 +173,7 @@ def stream_in(mp, ep, multibyte=0):
         fsm = ts.fsm(P + "fsm_state")
         c.inv("fsm_legal", fsm.legal())
         c.ensure("foreign_token_only_schedules_a_retry",
-                 z3.Implies(z3.And(z3.Not(mine_now), own_idle(I)),
+                 z3.Implies(z3.And(z3.Not(mine_now), own_idle(I, ts)),
                             z3.Or(c.nx(ts.sig(P + "fsm_state")) == ts.sig(P + "fsm_state"),
                                   z3.And(fsm.is_("WAIT_FOR_ACK"), B(I["new_token"]),
                                          c.nx(ts.sig(P + "fsm_state")) == fsm.code("WAIT_TO_SEND")))),
@@ -190,7 +191,7 @@ def signal_in(width, ep, endianness):
         framed = lambda ts: [("latched_value", ts.sig("latched_signal")), ("data_pid", ts.sig("tx_pid_toggle"))]
         listening = lambda ts: ts.fsm("fsm_state").is_("TRANSMIT_RESPONSE", "WAIT_FOR_ACK")
         # unprotected: fsm_state (WAIT_FOR_ACK -> RETRANSMIT on a foreign token: the same latched value is sent again)
-        ts, I, O, mine, mine_now = isolation(c, d, ep, [PID_IN], extra, lambda I: z3.BoolVal(True), framed, ["fsm_state"], listening)
+        ts, I, O, mine, mine_now = isolation(c, d, ep, [PID_IN], extra, lambda I, ts: z3.BoolVal(True), framed, ["fsm_state"], listening)
         fsm = ts.fsm("fsm_state")
         c.inv("fsm_legal", fsm.legal())
         c.ensure("read_complete_only_after_my_token", z3.Implies(O["status_read_complete"] == 1, mine_now),
@@ -220,7 +221,7 @@ def iso_in(cls, mp, ep):
             return out
         listening = lambda ts: ts.fsm("fsm_state").is_("SEND_DATA", "SEND_ZLP")
         # own side: SOF (new_frame reloads the per-frame counters).  Nothing is unprotected.
-        ts, I, O, mine, mine_now = isolation(c, d, ep, [PID_IN], extra, lambda I: I["new_frame"] == 0, framed, ["\0none"], listening)
+        ts, I, O, mine, mine_now = isolation(c, d, ep, [PID_IN], extra, lambda I, ts: I["new_frame"] == 0, framed, ["\0none"], listening)
         fsm = ts.fsm("fsm_state")
         c.inv("fsm_legal", fsm.legal())
         c.ensure("stays_idle_under_foreign_traffic", z3.Implies(z3.And(z3.Not(mine_now), fsm.is_("IDLE")), c.nx(fsm.is_("IDLE"))),
@@ -243,19 +244,20 @@ def out_ep(cls, mp, ep, my_pids):
                    ("fifo_committed_position", ts.sig("fifo.committed_write_pointer")),
                    ("fifo_contents", ts.mem("fifo.rx_fifo")[0]),
                    ("fifo_read_position", ts.sig("fifo.current_read_pointer")),
-                   ("stream_valid", ts.outputs["s_valid"]), ("stream_payload", ts.outputs["s_payload"]),
+                   ("stream_valid", ts.outputs["s_valid"]),
                    ("rx_cnt", ts.sig("rx_cnt"))]
-            for r in ("expected_data_toggle", "transfer_active", "packet_full"):
+            for r in ("expected_data_toggle", "transfer_active"):
                 if ts.has(r):
                     out.append((r, ts.sig(r)))
             return out
         # own side: the consumer (stream.ready) and ClearFeature(ENDPOINT_HALT).
         # unprotected (with reasons): boundary_detector.* — the detector pre-processes every received packet, addressed to
         # this endpoint or not; its output is only *used* under targeting_endpoint (that is what the frame clauses show);
-        # overflow / packet_accepted — scratch flags of the packet in flight, (re)initialised before use by a packet for me.
-        own_idle = lambda I: z3.And(I["s_ready"] == 0, bits(I["clr"], 0) == 0)
+        # overflow / packet_full / packet_accepted — scratch flags of the transaction in flight, (re)initialised by the token or
+        # first byte of a transaction for me before they are used (C13/C16 relate them to the transaction's own history).
+        own_idle = lambda I, ts: z3.And(I["s_ready"] == 0, bits(I["clr"], 0) == 0)
         ts, I, O, mine, mine_now = isolation(c, d, ep, my_pids, extra, own_idle, framed,
-                                             ["boundary_detector.", "overflow", "packet_accepted"], lambda ts: z3.BoolVal(False))
+                                             ["boundary_detector.", "overflow", "packet_full", "packet_accepted"], lambda ts: z3.BoolVal(False))
         for sgn in ("write_en", "write_commit", "write_discard"):
             c.ensure(f"no_fifo_{sgn}_under_foreign_traffic", z3.Implies(z3.Not(mine_now), ts.sig("fifo." + sgn) == 0),
                      clause="data exchanged with other endpoints never changes the data it delivers (nothing is written, committed "
